@@ -16,8 +16,10 @@ import (
 	"os/exec"
 	"runtime"
 	"sort"
+	"strconv"
 	"strings"
 	"sync"
+	"sync/atomic"
 	"time"
 )
 
@@ -185,8 +187,60 @@ func hashKey(s string) uint64 {
 	return h.Sum64()
 }
 
-// safeImpl runs Impl with panic recovery; a panic is reported as output "panic:<msg>".
+// caseTimeout: wall-clock bound for ONE case on the implementation (env VERIF_CASE_TIMEOUT, seconds; default 60).
+// A case that exceeds it is reported as a hang of the code under test (property "*" = the property being checked):
+// the harness must terminate on a tree whose change makes a call loop forever.
+var caseTimeout = func() time.Duration {
+	if v, err := strconv.Atoi(os.Getenv("VERIF_CASE_TIMEOUT")); err == nil && v > 0 {
+		return time.Duration(v) * time.Second
+	}
+	return 60 * time.Second
+}()
+
+var (
+	hungCases   int64 // cases abandoned after caseTimeout (their goroutines keep running)
+	maxCaseNano int64 // longest single case seen (evidence)
+)
+
+const maxHung = 6 // after this many hangs the remaining cases of the run are skipped
+
+// safeImpl runs Impl with panic recovery and a watchdog; a panic is reported as output "panic:<kind>", a hang as "timeout".
 func safeImpl(c *Component, cs Case) (res ImplResult, panicked bool) {
+	if atomic.LoadInt64(&hungCases) >= maxHung {
+		return ImplResult{Out: "skipped-after-hangs", NoModel: true}, false
+	}
+	type outT struct {
+		res      ImplResult
+		panicked bool
+	}
+	ch := make(chan outT, 1)
+	t0 := time.Now()
+	go func() {
+		r, p := safeImplInner(c, cs)
+		ch <- outT{r, p}
+	}()
+	timer := time.NewTimer(caseTimeout)
+	defer timer.Stop()
+	select {
+	case o := <-ch:
+		d := int64(time.Since(t0))
+		for {
+			old := atomic.LoadInt64(&maxCaseNano)
+			if d <= old || atomic.CompareAndSwapInt64(&maxCaseNano, old, d) {
+				break
+			}
+		}
+		return o.res, o.panicked
+	case <-timer.C:
+		atomic.AddInt64(&hungCases, 1)
+		res = ImplResult{Out: "timeout", Key: "timeout", NoModel: true}
+		res.Fails = append(res.Fails, OracleFail{Property: "*", Clause: "hang-in-" + c.Name,
+			Detail: fmt.Sprintf("the case did not return within %s (the same component needs at most a few seconds per case on the unchanged tree)", caseTimeout)})
+		return res, false
+	}
+}
+
+func safeImplInner(c *Component, cs Case) (res ImplResult, panicked bool) {
 	defer func() {
 		if r := recover(); r != nil {
 			msg := fmt.Sprint(r)
@@ -202,7 +256,8 @@ func safeImpl(c *Component, cs Case) (res ImplResult, panicked bool) {
 				kind = "assert"
 			}
 			res = ImplResult{Out: "panic:" + kind, Key: "panic"}
-			res.Fails = append(res.Fails, OracleFail{Property: "C01", Clause: "panic-in-" + c.Name, Detail: msg})
+			// property "*": a panic the component's own code did not expect is a violation of whatever property is being checked
+			res.Fails = append(res.Fails, OracleFail{Property: "*", Clause: "panic-in-" + c.Name, Detail: msg})
 			panicked = true
 		}
 	}()
@@ -343,6 +398,11 @@ func RunComponent(c *Component, tier string, seed uint64, driver string, corpus 
 	sort.Slice(res.Disagreements, func(a, b int) bool {
 		return len(res.Disagreements[a].Case.Line("")) < len(res.Disagreements[b].Case.Line(""))
 	})
+	if res.Extra == nil {
+		res.Extra = map[string]string{}
+	}
+	res.Extra["max_case_ms"] = strconv.FormatInt(atomic.LoadInt64(&maxCaseNano)/1e6, 10)
+	res.Extra["hung_cases"] = strconv.FormatInt(atomic.LoadInt64(&hungCases), 10)
 	res.WallS = time.Since(t0).Seconds()
 	return res
 }
